@@ -10,7 +10,7 @@
 //	partTreap  (a') exhaustive op sequences on treap.Immutable / treap.Mutable
 //	partFault  (b)  every single block-file I/O call of every history made to fail
 //	partCrash  (c)  every crash image (log prefix x dropped unsynced writes x torn last write)
-//	partSched  (d)  isolation under thread schedules -- NOT IN THIS FILE YET, see the marker below
+//	partSched  (d)  isolation under thread schedules (partsched.go + checks/c05/sched, built by run.sh)
 //
 // Everything runs in directories /dev/shm/verif-c05-<pid>-*, removed at exit.
 //
@@ -110,8 +110,9 @@ func main() {
 		{"seq", partSeq, 110, 420},
 		{"fault", partFault, 25, 120},
 		{"crash", partCrash, 25, 240},
+		{"sched", partSched, 100, 600},
 		// ------------------------------------------------------------------
-		// PART (d) GOES HERE: isolation under thread schedules (vsched).
+		// PART (d): isolation under thread schedules (vsched), partsched.go.
 		// Add {"sched", partSched, <quick seconds>, <thorough seconds>} with
 		//     func partSched(r *ev.Run, v *violSet)
 		// Report failures with v.add("sched/<class>", what, replayObj{Part: "d", ...}, size)
